@@ -51,6 +51,11 @@ def gen_case(rng, label, tier="quick", nmax=None):
     s = build.gen_system(rng, N=N, Nt=Nt, dt=float(rng.choice([1.0, 1.0, 2.0])),
                          zero_coupling=bool(rng.random() < 0.08), degenerate=bool(rng.random() < 0.12),
                          dipoles=False, lam=(5.0, 150.0), tau=(20.0, 200.0))
+    if s["N"] >= 3 and rng.random() < 0.08:
+        # a symmetric ring of identical molecules: exactly degenerate exciton levels whose eigenvectors really mix the sites
+        j0 = r3(rng.uniform(30.0, 200.0) * rng.choice([-1.0, 1.0]))
+        s["E"] = [s["E"][0]] * s["N"]
+        s["J"] = [[(0.0 if a == b else float(j0)) for b in range(s["N"])] for a in range(s["N"])]
     c = {"label": label, "sys": s, "seed": int(rng.integers(1 << 30))}
     J = numpy.abs(numpy.triu(numpy.array(s["J"])))
     nz = numpy.unique(J[J > 0])
